@@ -13,7 +13,7 @@ def run(m):
         return f"{m['id']}: no property named in expect ({m.get('expect','')[:40]})"
     d = tempfile.mkdtemp(prefix="pyvc_mut_")
     try:
-        shutil.copytree("/repo/pyjelly", os.path.join(d, "pyjelly"), ignore=shutil.ignore_patterns("__pycache__"))
+        shutil.copytree("/repo/pyjelly", os.path.join(d, "pyjelly"), ignore=shutil.ignore_patterns("__pycache__", "_proto"), ignore_dangling_symlinks=True)
         path = os.path.join(d, m["file"])
         s = open(path).read()
         if s.count(m["old"]) != 1:
